@@ -123,7 +123,7 @@ def type_range(cty):
 
 
 def is_pointer(cty):
-    return cty is not None and cty.rstrip().endswith('*')
+    return cty is not None and (cty.rstrip().endswith('*') or '(*)' in cty or cty.rstrip().endswith('*const'))
 
 
 _ARR = re.compile(r'\[(\d+)\]')
